@@ -73,6 +73,30 @@ Section Statements.
   Proof. exact (edited_written_back MH). Qed.
 End Statements.
 
+(** Any number of successive snapshots of the unedited file (stat info changed each time,
+    any executable bits on disk): the model of [process_present_file] carries the stored
+    marker length ([materialized_conflict_data]) from one snapshot to the next, so after
+    EVERY snapshot the tree value is the original conflict and the stored length is still
+    the one the file was materialized with — also when that length exceeds the minimum. *)
+Theorem C06_snapshot_sequence_unchanged :
+  forall (MH : list (list N) -> list N + list (list (list N)))
+         (vals : list (option (list N * bool))) (D : list N -> list N -> list dhunk)
+         (eol : list N) (L : nat) (st : style) (labels : list (list N))
+         (hs : list (list (list N))) (execs : list bool),
+    (3 <= length vals)%nat ->
+    MH (map read_fid (simplify fid_eqb (map (option_map fst) vals))) = inr hs ->
+    DiffOk D -> EolOk eol -> LabelsOk labels ->
+    WfHunks (nsides (simplify fid_eqb (map (option_map fst) vals))) hs -> Dominated L hs ->
+    wc_run MH (vals, Some L) (materialize_conflict_hunks D eol L hs st labels) execs
+    = map (fun _ => Some (vals, Some L)) execs.
+Proof. exact wc_run_unchanged. Qed.
+
+Theorem C06_seq_okb_spec :
+  forall c : case,
+    seq_okb c = true <->
+    forall e, In e (c_seq c) -> snd (fst e) = Some (c_vals c) /\ snd e = Some (c_len c).
+Proof. exact seq_okb_spec. Qed.
+
 (** A line without a conflict-start marker of length [>= L] anywhere: nothing parses. *)
 Theorem C06_no_start_no_parse :
   forall (L n : nat) (content : list N),
